@@ -7,7 +7,10 @@ with the real DHLLDV_viewer code.
  (b) the abstract workbook and every single structural fault of it are materialised again with openpyxl in memory and
      run through the real load_pipeline_from_workbook; the model loads the same abstract workbook; compared: outcome
      class (Ok / InvalidExcelError / other exception class) and, for Ok, every loaded field;
- (c) remove_disallowed_filename_chars and the name chosen by store_to_excel on unicode strings."""
+ (c) remove_disallowed_filename_chars and the name chosen by store_to_excel on unicode strings;
+ (d) Models/ExcelStore.v: the in-memory workbook store_to_excel builds for a generated pipeline (captured at save time) is
+     compared cell by cell, name by name, sheet by sheet with the model's store of the same abstract pipeline, and the
+     model's load of its own store must give the pipeline back (the executable side of theorem C15_roundtrip)."""
 import argparse
 import copy
 import os
@@ -148,6 +151,56 @@ def abstract_faults(awb, requireds, rng):
     return out
 
 
+def wb_tokens(awb):
+    """the abstract workbook as comparison tokens (numbers as floats)"""
+    t = [str(len(awb))]
+    for title, names in awb:
+        t += [hexs(title), str(len(names))]
+        for nm, (k, v) in names:
+            t.append(hexs(nm))
+
+            def cell(c):
+                if c is None or c == '':
+                    return ['B']
+                if isinstance(c, (int, float)):
+                    return ['N', float(c)]
+                return ['T', hexs(str(c))]
+            if k == 'S':
+                t += ['S'] + cell(v)
+            else:
+                ncol = max((len(r) for r in v), default=0)
+                t += ['R', str(len(v)), str(ncol)]
+                for r in v:
+                    for c in (list(r) + [None] * ncol)[:ncol]:
+                        t += cell(c)
+    return t
+
+
+def pipeline_request(pl, PipeObj):
+    """the abstract pipeline as the model's store sees it (what store_to_excel reads from the objects)"""
+    a = [hexs(pl.name), str(len(pl.pipesections))]
+    for p in pl.pipesections:
+        if isinstance(p, PipeObj.Pipe):
+            a += ['PIPE', hexs(p.name), hx(float(p.diameter)), hx(float(p.length)), hx(float(p.total_K)), hx(float(p.elev_change))]
+        else:
+            rows = list(zip(p.design_QH_curve.keys(), p.design_QH_curve.values(), p.design_QP_curve.values()))
+            a += ['PUMP', hexs(p.name), hx(float(p.design_impeller)), hx(float(p.suction_dia)), hx(float(p.disch_dia)), hx(float(p.design_speed)),
+                  hexs(p.limited), hx(float(p.gear_ratio)), hx(float(p.avail_power)), str(len(rows))]
+            for q, h, pw in rows:
+                a += [hx(float(q)), hx(float(h)), hx(float(pw))]
+            if p.limited == 'curve' and p.driver is not None:
+                cv = list(dict.items(p.driver.design_power_curve))
+                a += ['DRIVER', hexs(p.driver.name), str(len(cv))]
+                for k, v in cv:
+                    a += [hx(float(k)), hx(float(v))]
+            else:
+                a.append('NODRIVER')
+    s = pl.slurry
+    a += ['SLURRY', hexs(s.name), hx(float(s.Dp)), hx(float(s.get_dx(0.15) * 1000)), hx(float(s.get_dx(0.5) * 1000)), hx(float(s.get_dx(0.85) * 1000)),
+          hexs(s.fluid), hx(float(s.Cv)), hx(float(s.rhos)), hx(float(s.rhoi))]
+    return a
+
+
 def dump_real(pl, PipeObj, PumpObj):
     t = ['s:' + hexs(pl.name), str(len(pl.pipesections))]
     for p in pl.pipesections:
@@ -198,14 +251,31 @@ def main():
     ex = os.path.join(os.environ.get('VERIF_REPO', '/repo'), 'DHLLDV_viewer', 'static', 'pipelines', 'Example_input.xlsx')
     if os.path.exists(ex):
         bases.append(('example', abstract_of(openpyxl.load_workbook(ex, data_only=True))))
+    captured = {}
+    orig_save = openpyxl.Workbook.save
+
+    def capture_save(self, fn):
+        captured['wb'] = self
+        return orig_save(self, fn)
+    openpyxl.Workbook.save = capture_save
+    store_cases = []
     with tempfile.TemporaryDirectory(dir=os.path.join(os.path.dirname(os.path.dirname(os.path.dirname(os.path.abspath(__file__)))), 'build')) as td:
-        for i in range(a.n):
+        for i in range(a.n + 6 * max(1, a.n // 4)):
             pl = G.gen_pipeline(rng, mods)
+            captured.clear()
             o = py_outcome(St.store_to_excel, pl, f'corr{i}', None, td)
             if o[0] == 'err':
                 st.disagree.append({'what': 'store_to_excel raised', 'error': o[1]})
                 continue
-            bases.append((f'stored{i}', abstract_of(openpyxl.load_workbook(o[1], data_only=True))))
+            if 'wb' in captured:
+                store_cases.append((f'store{i}', pipeline_request(pl, PipeObj), ['roundtrip-equal'] + wb_tokens(abstract_of(captured['wb']))))
+            if i < a.n:
+                bases.append((f'stored{i}', abstract_of(openpyxl.load_workbook(o[1], data_only=True))))
+    openpyxl.Workbook.save = orig_save
+    for label, req, want in store_cases:
+        reqs.append(('Excel.store', req))
+        expect.append((label, 'model-store-vs-real-store', want))
+        dist['store'] = dist.get('store', 0) + 1
     for label, awb in bases:
         variants = [('well-formed', awb)] + abstract_faults(awb, L.excel_requireds, rng)
         for flabel, fwb in variants:
